@@ -8,3 +8,5 @@ import ScadVerif.Props.C12
 import ScadVerif.Props.C03
 import ScadVerif.Props.C07
 import ScadVerif.Props.C08
+import ScadVerif.Props.C04
+import ScadVerif.Props.C05
